@@ -452,6 +452,8 @@ def gen_wrappers(draw, tier="quick"):
         # "for all values": amplitudes of any magnitude (fields in SI units of tiny or huge quantities)
         "var": draw(st.one_of(st.just(1.7), st.integers(-60, 60).map(lambda e: 1.7 * 10.0**e))),
         "len_exp": draw(st.one_of(st.just(0), st.integers(-9, 9))),
+        # kriging requests of any size: (conditions, targets) up to ~1e7 right-hand-side entries in one call
+        "big": draw(st.sampled_from([0, 0, 0, 0, 0, 1, 2, 3])),
     }
 
 
@@ -501,9 +503,24 @@ def check_wrappers(case, rec):
                     results.append(np.asarray(f))
                 elif w == "krige":
                     model = gs.Exponential(dim=dim, var=1.2, len_scale=2.0)
-                    cp = rs.uniform(-3, 3, (dim, 6))
-                    k = gs.krige.Ordinary(model, cp, rs.standard_normal(6))
-                    f, v = lib(k, pos, _tags=tags)
+                    nc, nn = [(6, n), (6, 1_250_000), (127, 70_000), (40, 210_000)][case.get("big", 0)]
+                    cp = rs.uniform(-3, 3, (dim, nc))
+                    cv = rs.standard_normal(nc)
+                    pk = pos if nn == n else rs.uniform(-3, 3, (dim, nn))
+                    k = gs.krige.Ordinary(model, cp, cv)
+                    f, v = lib(k, pk, _tags=tags)
+                    if nt is None:
+                        # the wrapper delivers the defining sums for every target of the request (direct solve of the same system)
+                        from oracles import kriging as okr
+
+                        rec.label(f"krige_rhs_entries_1e{int(math.log10((nc + 1) * nn))}")
+                        est_o, var_o, cnd_o, _raw = okr.krige(model.covariance, 1.2, 1.2, cp, pk, cv, unbiased=True)
+                        if np.isfinite(cnd_o) and cnd_o < 1e9:
+                            tk = max(1e-9, 1e-13 * cnd_o) * (1.0 + float(np.max(np.abs(cv))))
+                            ef, ev = float(np.max(np.abs(f - est_o))), float(np.max(np.abs(v - var_o)))
+                            require(ef <= tk and ev <= tk * 1.2,
+                                    f"krige: {nc} conditions x {nn} targets in one call: estimate / variance differ from the direct solve by {ef:.3g} / {ev:.3g} (tol {tk:.3g})",
+                                    dict(tags, kind="wrapper_vs_defining_sum"))
                     results.append(np.concatenate([f, v]))
                 elif w in ("vario", "vario_dir"):
                     # 1-3 stacked fields with NaN at different points per field
